@@ -367,8 +367,15 @@ inductive GpwRes
   | exit (code : Nat)
 deriving Repr, BEq, DecidableEq
 
+/-- fmt_ulong: decimal digits, most significant first (`fuel` > number of digits) -/
+def fmtDecAux : Nat → Nat → Bytes → Bytes
+  | 0, _, acc => acc
+  | fuel + 1, n, acc =>
+    if n < 10 then (48 + n).toUInt8 :: acc else fmtDecAux fuel (n / 10) ((48 + n % 10).toUInt8 :: acc)
+def fmtDec (n : Nat) : Bytes := fmtDecAux (n + 1) n []
+
 def pwLine (pw : PwEnt) (dash ext : Bytes) : Bytes :=
-  pw.name ++ [NUL] ++ fmtNat pw.uid ++ [NUL] ++ fmtNat pw.gid ++ [NUL] ++ pw.dir ++ [NUL] ++ dash ++ [NUL] ++ ext ++ [NUL]
+  pw.name ++ [NUL] ++ fmtDec pw.uid ++ [NUL] ++ fmtDec pw.gid ++ [NUL] ++ pw.dir ++ [NUL] ++ dash ++ [NUL] ++ ext ++ [NUL]
 
 def getpwMain (db : PwDb) (loc : Bytes) : GpwRes :=
   match userext db loc loc.length with
